@@ -254,12 +254,16 @@ def gen_scenario(rng, tier: str) -> Dict[str, Any]:
     if r < 0.62:
         # chain around the limit
         lr = rng.random()
-        if lr < 0.6:
+        if lr < 0.55:
             L = rng.randint(1, 12)
-        elif lr < 0.95:
+        elif lr < 0.86:
             L = rng.choice((50, 100, 100, 150, 300))
+        elif lr < 0.93:
+            # the gaps: any limit, powers of two, and the neighbourhood of the interpreter's own
+            # recursion limit (1000 by default), where "configured" and "interpreter" limits meet
+            L = rng.choice((rng.randint(13, 49), rng.randint(13, 49), 64, 128, 256, rng.randint(301, 900), 940, 970, 985, 990, 995, 998, 999, 1000, 1001, 1010))
         elif tier == "thorough":
-            L = 2000
+            L = rng.choice((2000, 1500, 1200))
         else:
             L = 100
         npre = rng.choice((0, 0, 0, 1, 2))
@@ -392,7 +396,7 @@ def signature(sc: Dict[str, Any], ev: Dict[str, Any], cls: str) -> str:
     delta = "inf" if mn == N.INF else int(mn - sc["L"])
     if isinstance(delta, int) and delta > 3:
         delta = ">3"
-    lim = "L>=1000" if sc["L"] >= 1000 else "L<1000"
+    lim = "L>=1000" if sc["L"] >= 1000 else ("L~1000" if sc["L"] >= 900 else "L<1000")
     parts = [f"C18:{mode}:{cls}", f"shape={sh['class']}", f"nesting-L={delta}", lim]
     if sh["class"] == "chain":
         parts.append(f"bottom={sh['bottom']}")
